@@ -1,5 +1,5 @@
 (* Entry point of the extracted executable for C09. *)
-From CV Require Import Base.Bytes Lit.Platform Lit.Gen_Platforms TypeConv.Gen_TypeRank TypeConv.Defs TypeConv.Spec TypeConv.Proofs TypeConv.Explain.
+From CV Require Import Base.Bytes Lit.Platform Lit.Gen_Platforms TypeConv.Gen_TypeRank TypeConv.Defs TypeConv.Spec TypeConv.Proofs TypeConv.Explain TypeConv.Unary.
 Local Open Scope N_scope.
 
 Definition BAD : list str := [[66]].
@@ -57,6 +57,27 @@ Definition run (fields : list str) : list str :=
             | Some op, Some a, Some b =>
                 vt_out (result_type (opk_of op) (mkVt a (vsign_of_name s1)) (mkVt b (vsign_of_name s2)))
             | _, _, _ => BAD
+            end
+        | _ => BAD
+        end
+      else if tag_is tag [114;116;49] then
+        (* "rt1" type sign : unary operator on an operand typed as the dump spells it *)
+        match args with
+        | [t1; s1] => match vtype_of_name t1 with
+                      | Some a => vt_out (result_type1 (mkVt a (vsign_of_name s1)))
+                      | None => BAD
+                      end
+        | _ => BAD
+        end
+      else if tag_is tag [115;112;101;99;49] then
+        (* "spec1" platform op(0 arith, 1 incdec) a -> ctype, class *)
+        match args with
+        | [name; o; a] =>
+            match find_platform name Gen_platforms, ctype_of_N (nd a) with
+            | Some p, Some ta =>
+                let op := if nd o =? 0 then UArith else UIncDec in
+                ct_out (Some (c_result1 (widths_of p) op ta)) ++ [dec_of_N (explain1 (widths_of p) op ta)]
+            | _, _ => BAD
             end
         | _ => BAD
         end
